@@ -1634,6 +1634,15 @@ class TimePoint:
         new_timepoint._time_zone = self._time_zone._copy()
         return new_timepoint
 
+    def _roll_over_24(self) -> "TimePoint":
+        """Return this instance, or if it is at 24:00, an equivalent copy at
+        00:00 on the next day."""
+        if self._truncated or self._hour_of_day != CALENDAR.HOURS_IN_DAY:
+            return self
+        new = self._copy()
+        new._tick_over()
+        return new
+
     def get_props(self) -> list:
         """Return the data properties of this TimePoint as a list of tuples."""
         props = []
@@ -1650,7 +1659,7 @@ class TimePoint:
             # TODO: Convert truncated TimePoints to UTC when not buggy
             return hash(
                 tuple(getattr(self, attr) for attr in self.__slots__))
-        point = self.to_utc()
+        point = self.to_utc()._roll_over_24()
         return hash((*point.get_calendar_date(),
                      *point.get_hour_minute_second()))
 
@@ -1677,14 +1686,15 @@ class TimePoint:
                 if self_attr != other_attr:
                     return _operator_map[op](self_attr, other_attr)
             return True
-        other = other.to_time_zone(self._time_zone)
-        if self.get_is_calendar_date():
-            my_date = self.get_calendar_date()
+        other = other.to_time_zone(self._time_zone)._roll_over_24()
+        this = self._roll_over_24()
+        if this.get_is_calendar_date():
+            my_date = this.get_calendar_date()
             other_date = other.get_calendar_date()
         else:
-            my_date = self.get_ordinal_date()
+            my_date = this.get_ordinal_date()
             other_date = other.get_ordinal_date()
-        my_datetime = [*my_date, self.get_second_of_day()]
+        my_datetime = [*my_date, this.get_second_of_day()]
         other_datetime = [*other_date, other.get_second_of_day()]
         return _operator_map[op](my_datetime, other_datetime)
 
@@ -1707,15 +1717,16 @@ class TimePoint:
         if isinstance(other, TimePoint):
             if other > self:
                 return -1 * (other - self)
-            other = other.to_time_zone(self._time_zone)
-            my_year, my_day_of_year = self.get_ordinal_date()
+            other = other.to_time_zone(self._time_zone)._roll_over_24()
+            this = self._roll_over_24()
+            my_year, my_day_of_year = this.get_ordinal_date()
             other_year, other_day_of_year = other.get_ordinal_date()
             diff_day = my_day_of_year - other_day_of_year
             if my_year > other_year:
                 diff_day += get_days_in_year_range(other_year, my_year - 1)
             else:
                 diff_day -= get_days_in_year_range(my_year, other_year - 1)
-            my_hour, my_minute, my_second = self.get_hour_minute_second()
+            my_hour, my_minute, my_second = this.get_hour_minute_second()
             other_hour, other_minute, other_second = (
                 other.get_hour_minute_second())
             diff_hour = my_hour - other_hour
